@@ -33,6 +33,18 @@ def fx_events(w, body, effs):
     return out
 
 
+def work_body(w, fn, effs):
+    """The body of `fn` in which the effect happens: the function's own body, or - when its loop was written with an
+    iterator adapter - the closure of that function that does the work."""
+    main = w.body(fn)
+    if fx_events(w, main, effs):
+        return main
+    for b in sorted(w.lib.family(fn), key=lambda x: x.name):
+        if b is not main and fx_events(w, b, effs):
+            return b
+    return main
+
+
 def run(ck, w):
     lib = w.lib
     g = w.graph
@@ -40,7 +52,7 @@ def run(ck, w):
     # ---- 1. chown before chmod ------------------------------------------------------------------
     n_inst = 0
     for fn in ("restore::restore_file", "restore::apply_deferrals"):
-        b = w.body(fn)
+        b = work_body(w, fn, CHOWN)
         chown = fx_events(w, b, CHOWN)
         chmod = fx_events(w, b, {"CHMOD"})
         o = ck.ob("C01.1." + fn.split("::")[-1], "%s: ownership is applied before the mode (chown clears setuid/setgid)" % fn)
@@ -57,6 +69,23 @@ def run(ck, w):
         else:
             ck.ok(o, sites=[e.site() for e in chown + chmod], instances=len(chmod))
     ck.floor("C01.1.n", "bodies applying both owner and mode", n_inst, 2)
+    o = ck.ob("C01.1.set_owner", "owner::unix::set_owner applies whatever part of the owner resolved: every Ok return follows the lchown call "
+                                  "(a user without a group name, or the reverse, is still applied)")
+    so_b = lib.bodies.get("owner::unix::set_owner")
+    if so_b is None:
+        ck.fail(o, "owner::unix::set_owner", "anchor-missing", "set_owner not found")
+    else:
+        lch = [e for e in so_b.events if e.bb in so_b.live and re.search(r"::l?chown$|fchownat$", e.name)]
+        oks_ = [bb for bb, j, s_ in rules.agg_sites(so_b, "std::result::Result", "Ok") if s_["pl"]["l"] == 0]
+        if not lch or not oks_:
+            ck.fail(o, so_b.name, "anchor-missing", "lchown events=%d Ok returns=%d" % (len(lch), len(oks_)))
+        else:
+            early = [bb for bb in oks_ if not so_b.must_pass_nodes({e.bb for e in lch}, bb)]
+            if early:
+                ck.fail(o, so_b.name, "Ok returned without calling lchown", "set_owner can return Ok without applying the ids it resolved: %s" %
+                        rules.witness(so_b, early[0], removed_nodes={e.bb for e in lch}), "%s:bb%d" % (so_b.file, early[0]))
+            else:
+                ck.ok(o, sites=[lch[0].site()])
     # any other body doing both?
     o = ck.ob("C01.1.others", "no other body applies both ownership and mode")
     both = []
@@ -107,6 +136,27 @@ def run(ck, w):
             ck.ok(o, sites=[e.site() for e in pushes])
         elif ok_f:
             ck.fail(o, rb.name, "created directory may skip its deferral", "a path from ok(restore_dir) reaches the next entry without pushing a DirDeferral")
+
+    o = ck.ob("C01.2c", "restore(): the deferral is queued for EVERY directory entry, the tree's top directory included (its mtime, mode and owner "
+                        "are part of the tree)")
+    root_tests = []
+    for e, pol in rules.eq_tests(rb, r"apath::Apath$"):
+        if any(c.endswith("Apath::root") for c in flow.origin_calls(flow.origins_x(lib, rb, e.args[0]) | flow.origins_x(lib, rb, e.args[1]))):
+            root_tests.append((e, pol))
+    if not pushes:
+        ck.fail(o, rb.name, "no deferral push", "Dir entries are not queued")
+    else:
+        cond = []
+        for e, pol in root_tests:
+            for val in (True, False):
+                ed = rules.bool_switch_edges(rb, e, val)
+                if ed and all(rb.must_pass_edges(ed, p_.bb) for p_ in pushes):
+                    cond.append(e)
+        if cond:
+            ck.fail(o, rb.name, "deferral depends on the entry not being the root", "the DirDeferral push lies behind a comparison with Apath::root(): "
+                    "the top directory's metadata is never restored", cond[0].site())
+        else:
+            ck.ok(o, "%d comparison(s) with the root, none guarding the push" % len(root_tests), instances=len(pushes))
 
     # ---- 3. metadata applied on every success path -----------------------------------------------------------
     rf = w.body("restore::restore_file")
@@ -161,11 +211,23 @@ def run(ck, w):
             ck.fail(o, rs.name, "link target not from the entry", "target derives from %s" % flow.origin_summary(orig))
     if good:
         ck.ok(o, instances=3)
-    ad_b = w.raw("restore::apply_deferrals")
+    ad_b = work_body(w, "restore::apply_deferrals", CHOWN)
     o = ck.ob("C01.3c", "apply_deferrals: every deferral gets owner, mode and mtime")
     nx = [e for e in ad_b.events if e.bb in ad_b.live and e.name.endswith("Iterator>::next")]
     st = [fx_events(w, ad_b, CHOWN), fx_events(w, ad_b, {"CHMOD"}), fx_events(w, ad_b, UTIME)]
-    if not nx or not all(st):
+    if all(st) and not nx and ad_b.kind == "closure":
+        # the per-deferral work is a closure handed to an iterator adapter: every call of it performs all three steps
+        adapters = [e for fb in lib.family("restore::apply_deferrals") for e in fb.events
+                    if e.bb in fb.live and re.search(r"Iterator>?::(for_each|try_for_each|map|fold)$", e.name)]
+        skipping = [e for fb in lib.family("restore::apply_deferrals") for e in fb.events
+                    if e.bb in fb.live and re.search(r"Iterator>?::(filter|skip|take|step_by|filter_map|take_while|skip_while|rev)$", e.name)]
+        miss = [k for k, evs in zip(("owner", "mode", "mtime"), st)
+                if any(r in ad_b.reachable(0, removed_nodes={e.bb for e in evs}) for r in ad_b.return_blocks())]
+        if adapters and not skipping and not miss:
+            ck.ok(o, "per-deferral closure performs all three steps", instances=3)
+        else:
+            ck.fail(o, ad_b.name, "a deferral can skip a metadata step", "closure form: steps that can be bypassed %s, narrowing adapters %d" % (miss, len(skipping)))
+    elif not nx or not all(st):
         ck.fail(o, ad_b.name, "deferral step missing", "owner/mode/mtime events: %s" % [len(x) for x in st])
     else:
         some_t = None
